@@ -235,6 +235,9 @@ func (o *PodObserver) FrameCheck(r *rand.Rand, pod *corev1.Pod) *cq.GoFail {
 	return nil
 }
 
+// ReplayPod, when set, makes the pod streams evaluate just this pod (shrinking of a recorded case).
+var ReplayPod *corev1.Pod
+
 // Pods builds the shared pod stream: enumeration, then n random pods.
 func Pods(stream string, seed int64, n int, imports, caseTy, runFn string, includeMalformed bool) (*cq.Set, *cq.Interner) {
 	r := rand.New(rand.NewSource(seed))
@@ -265,6 +268,11 @@ func Pods(stream string, seed int64, n int, imports, caseTy, runFn string, inclu
 		if f := o.FrameCheck(r, nm.Pod); f != nil {
 			set.GoFails = append(set.GoFails, *f)
 		}
+	}
+	if ReplayPod != nil {
+		includeMalformed = true
+		add(podgen.Named{Desc: "replay", Pod: ReplayPod})
+		return set, in
 	}
 	for _, nm := range podgen.Enumerate() {
 		add(nm)
